@@ -25,7 +25,7 @@ PROP = {
     "audit_module": "Audit.C15",
     "theorems": [
         "Wm.Cqrs.bus_publishes_once", "Wm.Cqrs.bus_name_metadata", "Wm.Cqrs.bus_hook_before_publish",
-        "Wm.Cqrs.bus_error_aborts", "Wm.Cqrs.bus_result_ok_iff", "Wm.Cqrs.bus_publish_error_once",
+        "Wm.Cqrs.bus_error_aborts", "Wm.Cqrs.bus_result_ok_iff", "Wm.Cqrs.bus_publish_error_once", "Wm.Cqrs.bus_each_send_on_its_own_topic",
         "Wm.Cqrs.invoked_iff_name_matches", "Wm.Cqrs.name_from_metadata", "Wm.Cqrs.ack_table",
         "Wm.Cqrs.original_message_in_ctx", "Wm.Cqrs.processMsg_delivery",
         "Wm.Cqrs.group_order_prefix", "Wm.Cqrs.group_invoked_iff", "Wm.Cqrs.group_invoked_increasing",
@@ -49,6 +49,11 @@ PROP = {
             "modify {none, ok, error} x publisher {ok, error} (quick: the corners thinned 1:3, thorough: all, 4 values each) plus the "
             "deprecated constructors; observation = the ordered effects (topic generator call, hook call with the message as it is then, "
             "modify call, Publish(topic, metadata, payload)) and the result class. "
+            "busseq: 2..6 values, mostly of one or two types with different contents, through ONE bus object (2 / 12 sequences per bus kind "
+            "x marshaler x name generator x generator mode) whose GeneratePublishTopic reads params.Event / params.Command (topic per "
+            "tenant derived from the content; one tenant without a topic = error) and/or a switch the application flips between sends, "
+            "publisher result varying per send; rule: every send publishes once on GeneratePublishTopic(that value, state at that moment), "
+            "evaluated by the harness outside the bus. "
             "proc: every processor kind {command, event, event group} x AckCommandHandlingErrors x AckOnUnknownEvent x OnHandle {nil, "
             "pass-through} x {JSON, Protobuf} x 6 name generators (default, StructName, NamedStruct, names differing only in case with a "
             "collision, the empty name, names equal only under Unicode case folding), 6 (quick) / 60 (thorough) random registries of 1..5 "
@@ -58,7 +63,11 @@ PROP = {
             "message.Router, scripted subscribers, each delivered message object awaited on Acked()/Nacked(); plus an exhaustive decision "
             "table (every kind x flag setting x registry over two Go types of length 1..3 x message name {type 0, type 1, nobody's} x "
             "payload {type 0, type 1, malformed} x every ok/error/panic outcome assignment, both marshalers; thorough: also with OnHandle) "
-            "and corpus/C15 (minimised cases that separated the self-test mutants); plus the deprecated "
+            "and corpus/C15 (minimised cases that separated the self-test mutants); concurrent cases (info suffix .c; 2 / 12 per "
+            "kind x flags x OnHandle x marshaler x name generator): the whole stream of 2..5 messages is handed to a subscription without "
+            "waiting for acks (the Router runs one goroutine per message) and a wrapping marshaler holds every message inside Unmarshal "
+            "until all of the batch are there – past the per-message context set-up, before any handler call – invocations are attributed "
+            "to their message by goroutine, rule: each invocation's context exposes ITS message; plus the deprecated "
             "NewCommandProcessor/NewEventProcessor facade. Observation per delivery = (handler positions invoked in order, each with the "
             "canonical re-encoding of the value it received and whether OriginalMessageFromCtx is the delivered object; ack/nack). "
             "Non-trivial = a bus case that reached the hook or the publisher; a processor case with at least one invocation and at least one "
@@ -76,8 +85,11 @@ PROP = {
         "differential harness harness/cmd/c15 (scripted subscribers, capturing publisher) + Lean driver Driver/C15.lean",
     ],
     "assumptions": [
-        "processors are observed one message at a time per subscription (the closures keep no state between messages: theorem "
-        "per_message_independent; the Router's concurrency is C01/C02/C06 territory)",
+        "the closures keep no state between messages (theorem per_message_independent; tie theorems: every variable of the closures "
+        "is per call): the model of several messages in flight at once is the per-message model of each; this is validated with "
+        "forced rendezvous inside Unmarshal, not proved for the Go memory model (the Router's own concurrency is C01/C02/C06)",
+        "a bus keeps no state between sends (model sendSeq, theorem bus_each_send_on_its_own_topic; facts: the constructors store "
+        "the configuration unchanged)",
         "OnHandle, when configured, calls params.Handler.Handle(params.Message.Context(), params.Command|Event) – a hook that does not "
         "call the handler is outside the property",
         "a handler panic is modelled (router recovers, Nack) and compared with the model but not demanded by the monitor: the property "
@@ -85,14 +97,14 @@ PROP = {
         "a message whose name matches but whose payload does not decode: no handler is called (there is no value) and the message is "
         "nacked – the reading of DESIGN.md section 6 (ack_table: 'decode error nack')",
     ],
-    "explanation": "Theorems (24, all inputs, no bounds): the bus publishes at most once and exactly once on success, on the generated topic, "
+    "explanation": "Theorems (25, all inputs, no bounds): the bus publishes at most once and exactly once on success, on the generated topic, "
                    "with metadata name = type name and payload = encoding, hook before publish, every earlier error aborts; a command/event "
                    "processor calls exactly the handler whose type name equals the message name (exact string equality) with the decoded "
                    "value; the group calls the matching handlers in registration order up to and including the first failing one (stated as "
                    "a prefix theorem, a position-wise iff and a stop-reason trichotomy); complete ack tables for all three kinds and both "
                    "flags; the original message is in every handler's context whatever the incoming context; bus -> processor delivers a "
                    "value equal to the one sent under the codec round-trip hypothesis. Tie: the three handler closures are re-extracted "
-                   "from the Go source on every run and proved equal to the model (4 tie theorems), 41 structural facts pin the bus call "
+                   "from the Go source on every run and proved equal to the model (4 tie theorems), 51 structural facts pin the bus call "
                    "order, the metadata key, and ctx.go; the harness validates model = implementation and the property monitor on every case.",
     "level_text": "proof",
     "level_note": "Model-level theorems for all registries, flags, messages and outcome assignments; correspondence to the Go code by "
